@@ -99,9 +99,37 @@ def rp_rule(chk, rule: str, repo, fn, what: str, min_carried: int = 1):
     config = init_only_attrs(repo, ci) if ci is not None else set()
     carried = D.carried_locals(fn.node, loop)
     n_checked = 0
+    # state attributes assigned inside the loop
+    lids_ast = {id(x) for x in ast.walk(loop)}
+    state_written_in_loop = set()
+    for n in ast.walk(loop):
+        tg = []
+        if isinstance(n, ast.Assign):
+            for t in n.targets:
+                tg += list(t.elts) if isinstance(t, (ast.Tuple, ast.List)) else [t]
+        elif isinstance(n, (ast.AugAssign, ast.AnnAssign)):
+            tg = [n.target]
+        for t in tg:
+            if isinstance(t, ast.Attribute) and isinstance(t.value, ast.Name) and t.value.id == "self":
+                state_written_in_loop.add(t.attr)
     for name, c in sorted(carried.items()):
         if not c.loop_defs:
-            continue  # constant during one call; (re)derived at entry
+            # constant during one call.  RP4: it must not be a snapshot of parser state that the loop itself updates
+            if name in bufs or name in offs or name == "self":
+                continue
+            for d in c.entry_defs:
+                rhs = D.def_rhs(d, name)
+                if rhs is None:
+                    continue
+                reads = {s.attr for s in ast.walk(rhs) if isinstance(s, ast.Attribute) and isinstance(s.value, ast.Name) and s.value.id == "self"}
+                stale = sorted(reads & state_written_in_loop)
+                decisions = [u for u in c.uses if any(isinstance(a, (ast.Compare, ast.If, ast.While, ast.IfExp, ast.BoolOp)) for a in _ancestors(u, loop))]
+                if stale and decisions:
+                    chk.violation(rule, d.ast, name, f"snapshot of self.{stale[0]} taken before the parse loop",
+                                  f"{what}: local `{name}` is computed from parser state (self.{', self.'.join(stale)}) once per call, but the loop changes that state and still reads `{name}` "
+                                  f"at line(s) {sorted({u.lineno for u in decisions})}: after a state transition inside the same call the decision uses the value of the previous state, "
+                                  "so the outcome depends on whether the transition and the use fall into one read")
+            continue
         n_checked += 1
         positional = name in bufs or name in offs
         cfg_reads = []
@@ -125,6 +153,13 @@ def rp_rule(chk, rule: str, repo, fn, what: str, min_carried: int = 1):
     if n_checked < min_carried:
         chk.analysis_error(f"{rule}: expected at least {min_carried} carried local(s) in {fn.where}, found {n_checked}")
     return carried, bufs, offs, loop
+
+
+def _ancestors(node, stop):
+    n = getattr(node, "parent", None)
+    while n is not None and n is not stop:
+        yield n
+        n = getattr(n, "parent", None)
 
 
 def rp3_rule(chk, rule: str, fn, bufs: set[str], offs: set[str], loop, what: str):
@@ -355,3 +390,50 @@ def run(chk):
             else:
                 chk.violation("C03.save", rnode, K.short(rnode), "self._chunk_tail = chunk", "a partial line is dropped when more input is requested")
     chk.expect_count("C03.save", n_ct, 2, "partial-line saves in the body parser")
+    # the input buffer itself is only ever extended at the front by the saved tail or consumed from the front
+    nb = 0
+    for fn, attr, buf in ((hp, "_tail", "data"), (pp, "_chunk_tail", "chunk")):
+        for n in ast.walk(fn.node):
+            if not isinstance(n, ast.Assign):
+                continue
+            pairs = []
+            for t in n.targets:
+                if isinstance(t, ast.Tuple) and isinstance(n.value, ast.Tuple) and len(t.elts) == len(n.value.elts):
+                    pairs += list(zip(t.elts, n.value.elts))
+                elif isinstance(t, ast.Tuple):
+                    pairs += [(e, None) for e in t.elts]
+                else:
+                    pairs.append((t, n.value))
+            for t, v in pairs:
+                if not (isinstance(t, ast.Name) and t.id == buf):
+                    continue
+                nb += 1
+                if v is None:
+                    chk.ok("C03.bufshape", n, f"`{buf}` <- remainder returned by `{K.short(n.value, 50)}`")
+                    continue
+                vt = norm.raw(v)
+                suffix = isinstance(v, ast.Subscript) and norm.raw(v.value) == buf and isinstance(v.slice, ast.Slice) and v.slice.upper is None and v.slice.step is None
+                empty = (isinstance(v, ast.Constant) and v.value in (b"", "")) or vt in ("EMPTY",)
+                if suffix or empty or vt == f"self.{attr} + {buf}" or vt in (f"bytes({buf})", f"memoryview({buf})"):
+                    chk.ok("C03.bufshape", n, f"`{buf}` <- `{vt}`: " + ("consumed from the front" if suffix else "saved tail prepended" if "+" in vt else "emptied / same bytes"))
+                else:
+                    chk.violation("C03.bufshape", n, K.short(n), f"{buf} = {buf}[<offset>:] | self.{attr} + {buf}",
+                                  f"the unconsumed input `{buf}` is rewritten to `{vt}`: bytes in the middle or at the end of the buffer are dropped, so what the next call sees (and what the line limits count) depends on where the read ended")
+    chk.expect_count("C03.bufshape", nb, 12, "assignments to the input buffer in the two resumable parsers")
+    for fn, attr, buf in ((hp, "_tail", "data"), (pp, "_chunk_tail", "chunk")):
+        for n in ast.walk(fn.node):
+            vals = []
+            if isinstance(n, ast.Assign):
+                for t in n.targets:
+                    if isinstance(t, ast.Tuple) and isinstance(n.value, ast.Tuple):
+                        vals += [v for tt, v in zip(t.elts, n.value.elts) if norm.raw(tt) == f"self.{attr}"]
+                    elif norm.raw(t) == f"self.{attr}":
+                        vals.append(n.value)
+            for v in vals:
+                t = norm.raw(v)
+                suffix = isinstance(v, ast.Subscript) and isinstance(v.value, ast.Name) and v.value.id == buf and isinstance(v.slice, ast.Slice) and v.slice.upper is None and v.slice.step is None
+                if (isinstance(v, ast.Constant) and not v.value) or t == buf or suffix:
+                    chk.ok("C03.save", n, f"self.{attr} <- `{t}`: the whole unconsumed remainder of the buffer")
+                else:
+                    chk.violation("C03.save", n, K.short(n), f"self.{attr} = {buf} | {buf}[<offset>:]",
+                                  f"only part of the unconsumed input is saved in self.{attr}: the dropped bytes (e.g. the CR of a CRLF that straddles the read boundary, or bytes counted by the line limit) are missing when the next read continues the line")
